@@ -24,26 +24,34 @@ fn long_base(r: &mut Rng) -> String {
     s
 }
 
+/// What may stand between an operator and a would-be '=': the '=' then
+/// belongs to the bound's text, not to the operator.
+const BEFORE_EQ: [&str; 12] = ["é", "€", "\u{0131}", "😀", "\u{feff}", " ", "\t", "+", ".", "0", "~", "é€"];
+
+/// Characters that mean something in the other pattern dialects (glob
+/// classes and wildcards, csh braces are excluded above), as an opening /
+/// closing pair: the opening one goes into the base, the closing one into
+/// the last bound, so that the operators stand "inside" the pair.  For a
+/// comparison pattern they are ordinary text on both sides.
+const DIALECT_PAIRS: [(&str, &str); 10] =
+    [("[", "]"), ("[!", "]"), ("[]", "]"), ("[a", "z]"), ("(", ")"), ("*", "*"), ("?", "?"), ("[", ""), ("", "]"), ("\\", "\\")];
+
 fn bound(r: &mut Rng) -> String {
-    match r.below(12) {
+    match r.below(13) {
         0 => String::new(),
         1 => "0".into(),
+        12 => {
+            // operator, something, '=': still the strict operator
+            let v = gv::v_safe(r);
+            format!("{}={v}", r.pick(&BEFORE_EQ))
+        }
         2 if r.chance(1, 2) => {
             // a digit run padded with leading zeros beyond 18 characters
-            let v = loop {
-                let v = gv::v_safe(r);
-                if !v.contains('=') {
-                    break v;
-                }
-            };
+            let v = gv::v_safe(r);
             gv::pad_zeros(r, &v)
         }
-        _ => loop {
-            let v = gv::v_safe(r);
-            if !v.contains('=') {
-                return v;
-            }
-        },
+        // ('=' may stand anywhere but first: `usable` guarantees that)
+        _ => gv::v_safe(r),
     }
 }
 
@@ -215,6 +223,7 @@ pub fn run(cx: &mut Cx) {
         cx.ev.require(&format!("match/ops1/{rel}/false"));
     }
     cx.ev.require("match/ops1/same/true");
+    cx.ev.require("workload/dialect-pair");
     cx.ev.require("match/ops2/same/true");
     cx.ev.require("match/ops2/same/false");
 
@@ -240,6 +249,7 @@ pub fn run(cx: &mut Cx) {
             r.pick(&BASES).to_string()
         };
         let ops = opseq(&mut r);
+        let mut base_used = base.clone();
         let mut pat = base.clone();
         let mut bounds = vec![];
         for op in &ops {
@@ -265,6 +275,36 @@ pub fn run(cx: &mut Cx) {
             pat.push_str(&b);
             bounds.push(b);
         }
+        if !ops.is_empty() && r.chance(1, 10) {
+            // the operators inside a pair of the other dialects' characters
+            let (open, close) = *r.pick(&DIALECT_PAIRS);
+            let at = r.below(base.chars().count() + 1);
+            let cut = base.char_indices().nth(at).map(|(i, _)| i).unwrap_or(base.len());
+            let nbase = format!("{}{open}{}", &base[..cut], &base[cut..]);
+            pat = format!("{nbase}{}", &pat[base.len()..]);
+            if r.chance(1, 2) {
+                pat.push_str(close);
+            } else {
+                // in front of the last bound's last character
+                let k = pat.char_indices().last().map(|(i, _)| i).unwrap_or(pat.len());
+                if k > nbase.len() && !pat[..k].ends_with(|c| c == '<' || c == '>') {
+                    pat.insert_str(k, close);
+                } else {
+                    pat.push_str(close);
+                }
+            }
+            let nb = bounds.len();
+            if let opat::DeweyParse::Ok(d) = opat::parse_dewey(&pat) {
+                // names are built from the text the reference reads
+                if d.bounds.len() == nb {
+                    for (i, (_, b)) in d.bounds.iter().enumerate() {
+                        bounds[i] = b.clone();
+                    }
+                }
+            }
+            cx.ev.count("workload/dialect-pair");
+            base_used = nbase;
+        }
         if ops.is_empty() {
             // an operator-free text through Dewey::new only
             pat.push_str(&bound(&mut r));
@@ -276,7 +316,7 @@ pub fn run(cx: &mut Cx) {
         let mut names: Vec<(String, &'static str)> = vec![];
         let k = r.range(3, 7);
         for _ in 0..k {
-            let (b2, rel) = related_base(&mut r, &base);
+            let (b2, rel) = related_base(&mut r, &base_used);
             // versions near the bounds so that both verdicts occur
             let v = if !bounds.is_empty() && r.chance(2, 3) {
                 let b = r.pick(&bounds).clone();
@@ -295,9 +335,9 @@ pub fn run(cx: &mut Cx) {
         names.push((pat.clone(), "pattern-text"));
         names.push((format!("{pat}-1.0"), "pattern-text"));
         match r.below(6) {
-            0 => names.push((base.clone(), "no-dash")),
+            0 => names.push((base_used.clone(), "no-dash")),
             1 => names.push((String::new(), "no-dash")),
-            2 => names.push((format!("{base}{}", gv::v_safe(&mut r)), "no-dash")),
+            2 => names.push((format!("{base_used}{}", gv::v_safe(&mut r)), "no-dash")),
             _ => {}
         }
         for (n, rel) in names.iter_mut() {
